@@ -8,6 +8,15 @@ def repo_fix_commits():
     return []
 
 CHECKS = {
+ "C01": ("exploration", "runtime monitoring of write/read round trips at the API boundary over generated configurations, inputs and call partitions",
+   "Drives the real xz.Writer through generated (config, data family, length, Write partition) cases with a recording sink, checks every call result, reads the sink back with xz.Reader, and issues Write/Close after Close. Held-on-what-was-observed: the evidence lists the distinct class tuples executed, chunk-kind sets and block counts seen.",
+   "Sampled quantifier (inputs x configs x partitions); harness sink and Go runtime trusted.", "4 C01"),
+ "C02": ("exploration", "differential runtime monitoring: every emitted stream judged by an independent strict reference decoder and liblzma",
+   "Every stream the writer emits in the C01 workload (own draw) is parsed and decoded by internal/ref (strict, shares no code with the library) and by liblzma; the structural report (check id, block count and sizes, paddings, index, backward size, dictionary >= distances, chunk limits) is compared with the configuration.",
+   "Trusted: internal/ref as the format definition, cross-checked at run time against liblzma 5.4.1 on the same streams (reference_agreement in the evidence); if liblzma cannot be linked that sub-oracle is reported skipped.", "4 C02"),
+ "C03": ("exploration", "runtime monitoring of the reader on valid streams from a frozen xz-utils corpus, fresh liblzma encodings and a specification-driven generator",
+   "Feeds xz.Reader valid streams from three independent sources, each admitted only when the reference decoders agree on its content, under several ReaderConfig.DictCap values around the declared dictionary size, and compares bytes and terminal status.",
+   "Validity of generated streams rests on internal/ref plus liblzma agreement; rejected generator output is inconclusive, never a violation.", "4 C03"),
  # id: (category, technique, text, note, design_ref)
  "C18": ("exploration", "exhaustive runtime enumeration against a specification table",
    "Calls the exported EncodeDictCap for every capacity 1..2^32-1 and DecodeDictCap for all 256 codes of the library built from the working tree and compares each result with the 41-entry table of the file format; the emitted block-header byte is observed for sampled DictCaps. The function domain is enumerated completely in both tiers (exhaustive:true in the evidence names that part).",
